@@ -167,14 +167,20 @@ AliasClasses ==
 PComp(i) == Cmp("p", <<"Real">>, <<"parameter">>, <<>>, <<>>, <<Lit(i)>>)
 (* pv.clash: the derived class declares p again (as Integer): the own element replaces the inherited one *)
 PClash(i) == IF pv.clash THEN <<Cmp("p", <<"Integer">>, <<"parameter">>, <<>>, <<>>, <<Lit(100 + i)>>)>> ELSE <<>>
+(* pv.skew: from level 3 up the SECOND instance is of the class two levels down, so the same instance name leads to the
+   same class at two different depths (Top.a : Mid2, Mid2.b : Leaf, Mid2.a : Mid, Mid.b : Leaf  =>  paths a.b and a.a.b lead to the same class) *)
+SecondLevel(i) == IF pv.skew /\ i >= 3 THEN i - 2 ELSE i - 1
 MainComps(s, i) ==
     IF i = 1 THEN <<Cmp("x", <<XType>>, Pre(pv.xpre), XDims, DeclMods, DeclVal)>>
     ELSE <<Cmp(IN1(i), <<CN(pv.depth, i - 1)>>, <<>>, <<>>, CompArgs(s, i), <<>>)>>
-         \o (IF pv.fan = 2 THEN <<Cmp(IN2(i), <<CN(pv.depth, i - 1)>>, <<>>, <<>>, <<>>, <<>>)>> ELSE <<>>)
+         \o (IF pv.fan = 2 THEN <<Cmp(IN2(i), <<CN(pv.depth, SecondLevel(i))>>, <<>>, <<>>, <<>>, <<>>)>> ELSE <<>>)
+(* in the hierarchy family the level-1 class also has  Real w = p : a declaration value with a SIMPLE name, which becomes the
+   flat equation  <path>.w = <path>.p *)
 RestComps(i) == IF i = 1 THEN <<Cmp("z", <<"Real">>, <<>>, <<>>, <<>>, <<>>)>>
+                                \o (IF pv.attr = "" THEN <<Cmp("w", <<"Real">>, <<>>, <<>>, <<>>, <<Ref(<<"p">>)>>)>> ELSE <<>>)
                 ELSE <<Cmp("y", <<"Real">>, Pre(pv.ypre), <<>>, <<>>, <<>>)>>
 MainEqs(i) == IF i = 1 THEN <<Eq(RefI(<<"x">>, XIx), Lit(1))>>
-              ELSE IF pv.fan = 2 THEN <<Eq(Ref(<<IN2(i)>> \o DownA(i - 1) \o <<"z">>), Lit(i))>> ELSE <<>>
+              ELSE IF pv.fan = 2 THEN <<Eq(Ref(<<IN2(i)>> \o DownA(SecondLevel(i)) \o <<"z">>), Lit(i))>> ELSE <<>>
 RestEqs(i) == IF i = 1 THEN <<Eq(Ref(<<"z">>), Bin("+", RefI(<<"x">>, XIx), Ref(<<"p">>)))>>
               ELSE <<Eq(Ref(<<"y">>), Bin("*", RefI(XPath(i), XIx), Ref(<<"p">>)))>>
 MainIeqs(i) == IF pv.ieq THEN <<Eq(RefI(XPath(i), XIx), Lit(7))>> ELSE <<>>
@@ -260,6 +266,7 @@ WellFormed ==
     /\ (pv.wrap = 2 => pv.nest = "lib" \/ pv.depth > 2)
     /\ pv.xtype \in {"Real", "Integer", "Boolean", "aR", "aI", "aB", "aaR"}
     /\ (pv.shadow => pv.nest # "lib")
+    /\ (pv.skew => pv.fan = 2 /\ pv.depth >= 3 /\ pv.nest = "lib")
     /\ (pv.clash => \E i \in 1..pv.depth : pv.split[i] # "none")
     /\ \A j \in DOMAIN pv.mods : SiteOK(pv.mods[j])
     /\ \A j, k \in DOMAIN pv.mods : j < k => Rank(pv.mods[j]) > Rank(pv.mods[k])     \* outermost first, no duplicates
@@ -624,7 +631,10 @@ ModSplits(d) == PlainSplits(d) \cup {[i \in 1..d |-> IF i = k THEN "chain2" ELSE
 
 PV(d, f, sm, w, n, s, xt, xd, xp, yp, iq, at, ms, cl, sh) ==
     [depth |-> d, fan |-> f, same |-> sm, wrap |-> w, nest |-> n, split |-> s, xtype |-> xt, xdims |-> xd,
-     xpre |-> xp, ypre |-> yp, ieq |-> iq, attr |-> at, mods |-> ms, clash |-> cl, shadow |-> sh]
+     xpre |-> xp, ypre |-> yp, ieq |-> iq, attr |-> at, mods |-> ms, clash |-> cl, shadow |-> sh, skew |-> FALSE]
+(* dedicated shape: depth 3 / 4, two instances per level, names repeated, second instance two levels down *)
+SkewPV(d, at, ms) == [PV(d, 2, TRUE, 0, "lib", [i \in 1..d |-> "none"], "Real", 0, "", "", at = "", at, ms, FALSE, FALSE)
+                      EXCEPT !.skew = TRUE]
 
 (* C07: hierarchy shapes with a plain leaf, plus leaf shapes (type alias / dimensions / prefixes) on plain hierarchies *)
 LeafShapes == ({"Real", "Integer", "Boolean", "aR", "aI", "aB", "aaR"} \X (0..2) \X {""} \X {""} \X {FALSE})
@@ -642,6 +652,7 @@ HierFamily ==
         \cup {PV(d, 1, FALSE, w, n, s, "Real", 0, "", "", TRUE, "", <<>>, c[1], c[2]) :
             w \in (IF Wide THEN {0, 1} ELSE {0}), n \in {"lib", "user", "userbase"},
             s \in (IF Wide \/ d < 3 THEN SplitSeqs(d) ELSE {}), c \in {<<TRUE, FALSE>>, <<FALSE, TRUE>>, <<TRUE, TRUE>>}}
+        \cup (IF d = 1 THEN {SkewPV(3, "", <<>>), SkewPV(4, "", <<>>)} ELSE {})
         \cup {PV(d, 1, FALSE, w, "lib", s, l[1], l[2], l[3], l[4], l[5], "", <<>>, FALSE, FALSE) :
             w \in (IF Wide THEN {0, 1} ELSE {0}),
             s \in (IF Wide \/ d < 3 THEN PlainSplits(d) ELSE {[i \in 1..d |-> "none"]}), l \in LeafShapes}
@@ -660,8 +671,12 @@ ModSeqs(S, kinds, maxn) ==      \* subsets of at most maxn sites with an express
             : f \in [1..Cardinality(T) -> kinds]} : T \in {U \in SUBSET S : Cardinality(U) \in 1..maxn}}
 
 (* C08 *)
+SkewMods == {SkewPV(4, at, ms) : at \in {"start", "value"},
+                                   ms \in {<<[k |-> "decl", i |-> 1, e |-> "ref"]>>, <<[k |-> "comp", i |-> 2, e |-> "ref"]>>,
+                                           <<[k |-> "comp", i |-> 3, e |-> "ref"], [k |-> "decl", i |-> 1, e |-> "ref"]>>}}
 ModsFamily ==
     IF Family # "mods" THEN {} ELSE
+    SkewMods \cup
     {v \in UNION { UNION {
             {PV(d, 1, sm, 0, "lib", s, xt, 0, xp, "", FALSE, at, ms, FALSE, FALSE) :
                 sm \in (IF d >= 3 THEN BOOLEAN ELSE {FALSE}), xp \in {"", "parameter"},
@@ -700,7 +715,7 @@ Tags ==
     \cup {"split" \o ToString(i) \o "-" \o pv.split[i] : i \in {j \in 1..pv.depth : pv.split[j] # "none"}}
     \cup (IF pv.same THEN {"same"} ELSE {})
     \cup (IF pv.xpre # "" THEN {"xpre-" \o pv.xpre} ELSE {}) \cup (IF pv.ypre # "" THEN {"ypre-" \o pv.ypre} ELSE {})
-    \cup (IF pv.ieq THEN {"ieq"} ELSE {}) \cup (IF pv.clash THEN {"clash"} ELSE {}) \cup (IF pv.shadow THEN {"shadow"} ELSE {})
+    \cup (IF pv.ieq THEN {"ieq"} ELSE {}) \cup (IF pv.clash THEN {"clash"} ELSE {}) \cup (IF pv.shadow THEN {"shadow"} ELSE {}) \cup (IF pv.skew THEN {"skew"} ELSE {})
     \cup (IF pv.attr # "" THEN {"attr-" \o pv.attr} ELSE {})
     \cup {"site-" \o pv.mods[j].k \o ToString(pv.mods[j].i) \o "-" \o pv.mods[j].e : j \in DOMAIN pv.mods}
 
@@ -728,7 +743,7 @@ RECURSIVE SumSeq(_)
 SumSeq(q) == IF q = <<>> THEN 0 ELSE Head(q) + SumSeq(Tail(q))
 Hash(v) == v.depth * 7 + v.fan * 3 + v.wrap * 5 + v.xdims * 11 + StrIdx(v.xtype) * 13 + StrIdx(v.xpre) * 17
            + StrIdx(v.ypre) * 19 + (IF v.same THEN 23 ELSE 0) + (IF v.ieq THEN 29 ELSE 0) + StrIdx(v.nest) * 31
-           + StrIdx(v.attr) * 37 + (IF v.clash THEN 41 ELSE 0) + (IF v.shadow THEN 43 ELSE 0)
+           + StrIdx(v.attr) * 37 + (IF v.clash THEN 41 ELSE 0) + (IF v.shadow THEN 43 ELSE 0) + (IF v.skew THEN 47 ELSE 0)
            + SumSeq([i \in DOMAIN v.split |-> StrIdx(v.split[i]) * (i + 40)])
            + SumSeq([j \in DOMAIN v.mods |-> (Rank(v.mods[j]) * 2 + StrIdx(v.mods[j].e)) * (j + 52)])
 
